@@ -204,7 +204,7 @@ def run(chk):
             try:
                 v = Run(convs[name], fault).go()
             except Exception as e:  # pylint: disable=broad-except
-                raise common.Infra('harness error in %s %r: %r' % (name, fault, e))
+                common.raise_for('%s [conversation %s, fault %r]' % (common.describe_exc(e), name, fault))
             chk.case('%s %r' % (name, fault), fault[0] != 'none' and not (fault[0] == 'eof' and fault[2] == 0 and fault[1] == 0),
                      {'conversation': name, 'fault': fault[0], 'turn': fault[1], 'offset': fault[2]})
             chk.count('fault:' + fault[0]); chk.count('conv:' + name)
